@@ -235,3 +235,31 @@ TK_UNITS = (
     + [NormalizePeriodInt()]
     + [NormalizePeriodList(u) for u in ("s", "m", "h")]
 )
+
+
+class TKInitMissing(Spec):
+    """Missing start, stop or time step: SystemExit before anything else happens."""
+
+    func = "ladim.timekeeper.TimeKeeper.__init__"
+    properties = ("C20",)
+    inline = ("ladim.timekeeper.normalize_period", "ladim.timekeeper.TimeKeeper.step2time")
+
+    def __init__(self, missing):
+        self.missing = missing
+        self.name = f"TimeKeeper.__init__[missing {missing}]"
+
+    def inputs(self, cx):
+        start, stop, dt = z3.Ints("start stop dt")
+        cx.assume(z3.And(start != 0, stop != 0, dt > 0))
+        vals = dict(start=start, stop=stop, dt=dt)
+        vals[self.missing] = "" if self.missing != "dt" else 0
+        return Args(self=Obj("ladim.timekeeper.TimeKeeper"), start=vals["start"], stop=vals["stop"], dt=vals["dt"], reference=None, time_reversal=z3.Bool("time_reversal"), modules=None)
+
+    def raises(self, cx, a):
+        return [(True, "SystemExit")]
+
+    def model(self, cx, a):
+        return NotImplemented
+
+
+TK_MISSING = [TKInitMissing(m) for m in ("start", "stop", "dt")]
